@@ -2,6 +2,8 @@
   C08 — unready or out-of-sync shards are left alone until they are in sync.
 -/
 import Kvass.Pins.Coord
+import Kvass.Pins.Cfg
+import Kvass.Pins.Sidecar
 import Kvass.Proofs.CoordKeep
 import Kvass.Proofs.CoordProv
 
